@@ -189,8 +189,11 @@ Definition agree (c : case) : bool := replay_h (hidden c) (cfg c) init None (eve
 
 (* ------------------------------------------------------------------ monitor: trace-only ledger *)
 Record mstat := mkMS { ms_holder : option N; ms_att : N; ms_fin : bool; ms_dead : bool;
-                       ms_release : option Z (* deferred until a scan whose clock has reached this time *) }.
-#[export] Instance eta_ms : Settable _ := settable! mkMS <ms_holder; ms_att; ms_fin; ms_dead; ms_release>.
+                       ms_release : option Z; (* deferred until a scan whose clock has reached this time *)
+                       ms_dl : Z;             (* while held: when the hold times out (delivery or last TOUCH + the
+                                                 holder's negotiated msg_timeout, capped at delivery + max-msg-timeout) *)
+                       ms_dts : Z             (* while held: when it was delivered *) }.
+#[export] Instance eta_ms : Settable _ := settable! mkMS <ms_holder; ms_att; ms_fin; ms_dead; ms_release; ms_dl; ms_dts>.
 
 Record chled := mkCL {
   l_t : N; l_c : N; l_eph : bool; l_paused : bool;
@@ -210,9 +213,9 @@ Record tled := mkTL { tl_id : N; tl_eph : bool; tl_paused : bool; tl_pubcount : 
 #[export] Instance eta_tl : Settable _ := settable! mkTL <tl_id; tl_eph; tl_paused; tl_pubcount; tl_pubbytes; tl_pending>.
 
 Record kled := mkKL { kl_id : N; kl_alive : bool; kl_sub : option (N * N); kl_rdy : Z; kl_closing : bool;
-                      kl_fin : N; kl_req : N; kl_msgs : N }.
+                      kl_fin : N; kl_req : N; kl_msgs : N; kl_tmo : Z (* negotiated msg_timeout, ns *) }.
 #[export] Instance eta_kl : Settable _ :=
-  settable! mkKL <kl_id; kl_alive; kl_sub; kl_rdy; kl_closing; kl_fin; kl_req; kl_msgs>.
+  settable! mkKL <kl_id; kl_alive; kl_sub; kl_rdy; kl_closing; kl_fin; kl_req; kl_msgs; kl_tmo>.
 
 Record ledger := mkL {
   g_ch : list chled; g_tp : list tled; g_kl : list kled;
@@ -223,9 +226,16 @@ Record ledger := mkL {
   g_prerestart : option (list tsnap);   (* the last snapshot before a restart *)
   g_gone : list (N * N);           (* ephemeral channels whose last consumer left: must be absent from the next snapshot *)
   g_idx : N;                       (* index of the event being processed (diagnostics) *)
-  g_where : list (N * N)           (* (event index, property) of each violation (diagnostics) *)
+  g_where : list (N * N);          (* (event index, property) of each violation (diagnostics) *)
+  g_clk : Z;                       (* clock of the scan just issued *)
+  g_maxmsg : Z                     (* --max-msg-timeout *)
 }.
-#[export] Instance eta_l : Settable _ := settable! mkL <g_ch; g_tp; g_kl; g_last; g_prev_failed; g_flags; g_hidden; g_prerestart; g_gone; g_idx; g_where>.
+#[export] Instance eta_l : Settable _ := settable! mkL <g_ch; g_tp; g_kl; g_last; g_prev_failed; g_flags; g_hidden; g_prerestart; g_gone; g_idx; g_where; g_clk; g_maxmsg>.
+
+(* tolerance between the harness's clock readings and the daemon's (a frame is read after it
+   was registered, a TOUCH is executed after it was written): one second, against scan
+   clocks that the generator keeps tens of seconds away from every deadline *)
+Definition dl_slack : Z := 1000000000.
 
 Definition flag (p : N) (ok : bool) (g : ledger) : ledger :=
   if ok then g else g <| g_flags ::= cons p |> <| g_where ::= cons (g_idx g, p) |>.
@@ -242,7 +252,7 @@ Definition upd_tl (g : ledger) (t : N) (f : tled -> tled) : ledger :=
   g <| g_tp ::= map (fun x => if tl_id x =? t then f x else x) |>.
 
 Definition ms_get (l : list (N * mstat)) (id : N) : mstat :=
-  match find (fun x => fst x =? id) l with Some (_, m) => m | None => mkMS None 0 false false None end.
+  match find (fun x => fst x =? id) l with Some (_, m) => m | None => mkMS None 0 false false None 0%Z 0%Z end.
 Definition ms_set (l : list (N * mstat)) (id : N) (m : mstat) : list (N * mstat) :=
   (id, m) :: filter (fun x => negb (fst x =? id)) l.
 
@@ -287,7 +297,7 @@ Definition mon_op (g : ledger) (o : op) (r : resp) : ledger :=
                                              then fold_left (fun ms id => ms_set ms id ((ms_get ms id) <| ms_release := Some (now + defer)%Z |>)) ids ms
                                              else ms |>
                                    else cl) |>
-  | OConnect k _, ROk => g <| g_kl ::= cons (mkKL k true None 0%Z false 0 0 0) |>
+  | OConnect k tmo, ROk => g <| g_kl ::= cons (mkKL k true None 0%Z false 0 0 0 tmo) |>
   | OSub k t c teph ceph _, ROk =>
       let g := ens_cl g t c teph ceph in
       let g := upd_cl g t c (fun cl => cl <| l_clients ::= cons k |>) in
@@ -297,7 +307,7 @@ Definition mon_op (g : ledger) (o : op) (r : resp) : ledger :=
       | Some kl => if kl_closing kl then g else upd_kl g k (fun x => x <| kl_rdy := n |>)
       | None => g
       end
-  | ODeliver k id _, RDelivered att =>
+  | ODeliver k id now, RDelivered att =>
       match find_kl g k with
       | Some kl =>
           match kl_sub kl with
@@ -315,7 +325,8 @@ Definition mon_op (g : ledger) (o : op) (r : resp) : ledger :=
                   (* C03: RDY window, CLS, pause *)
                   let g := flag 3 (kl_alive kl && negb (kl_closing kl) && negb (l_paused cl)
                                    && (outstanding cl k <? kl_rdy kl)%Z) g in
-                  let g := upd_cl g t c (fun cl => cl <| l_msgs := ms_set (l_msgs cl) id (st <| ms_holder := Some k |> <| ms_att := att |>) |>) in
+                  let g := upd_cl g t c (fun cl => cl <| l_msgs := ms_set (l_msgs cl) id (st <| ms_holder := Some k |> <| ms_att := att |>
+                                                                                                        <| ms_dl := (now + kl_tmo kl)%Z |> <| ms_dts := now |>) |>) in
                   upd_kl g k (fun x => x <| kl_msgs ::= N.succ |>)
               | None => flag 2 false g
               end
@@ -372,7 +383,7 @@ Definition mon_op (g : ledger) (o : op) (r : resp) : ledger :=
           end
       | None => g
       end
-  | OTouch k id _, _ =>
+  | OTouch k id now, _ =>
       match find_kl g k with
       | Some kl =>
           match kl_sub kl with
@@ -382,7 +393,12 @@ Definition mon_op (g : ledger) (o : op) (r : resp) : ledger :=
                   let st := ms_get (l_msgs cl) id in
                   let holds := match ms_holder st with Some h => h =? k | None => false end in
                   match r with
-                  | ROk => flag 2 holds g
+                  | ROk =>
+                      (* the hold now lasts the consumer's negotiated msg_timeout from this TOUCH,
+                         but no longer than max-msg-timeout after the delivery *)
+                      let nd := (now + kl_tmo kl)%Z in
+                      let nd := if (nd - ms_dts st >=? g_maxmsg g)%Z then (ms_dts st + g_maxmsg g)%Z else nd in
+                      upd_cl (flag 2 holds g) t c (fun cl => cl <| l_msgs := ms_set (l_msgs cl) id (st <| ms_dl := nd |>) |>)
                   | RFailed => (flag 2 (negb holds) g) <| g_prev_failed := true |>
                   | _ => g
                   end
@@ -419,6 +435,7 @@ Definition mon_op (g : ledger) (o : op) (r : resp) : ledger :=
                | None => g
                end in
       upd_kl g k (fun x => x <| kl_alive := false |>)
+  | OScanInFlight t c now, ROk => g <| g_clk := now |>
   | OScanDeferred t c now, ROk =>
       upd_cl g t c (fun cl => cl <| l_msgs ::= map (fun x => match ms_release (snd x) with
                                                              | Some rel => if (rel <=? now)%Z then (fst x, (snd x) <| ms_release := None |>) else x
@@ -465,6 +482,16 @@ Definition mon_expired (g : ledger) (t c : N) (infl : bool) (ids : list N) : led
     | Some cl =>
         (* C02: only held messages can time out *)
         let g := flag 2 (forallb (fun id => match ms_holder (ms_get (l_msgs cl) id) with Some _ => true | None => false end) ids) g in
+        (* C02 / C04: never early — a hold that has not run out (delivery or last TOUCH + the
+           negotiated msg_timeout) is not taken away *)
+        let early := existsb (fun id => let st := ms_get (l_msgs cl) id in
+                                        match ms_holder st with Some _ => (g_clk g + dl_slack <? ms_dl st)%Z | None => false end) ids in
+        let g := flag 4 (negb early) (flag 2 (negb early) g) in
+        (* C04: boundedly late — a scan whose clock has passed a hold's end re-queues it *)
+        let g := flag 4 (forallb (fun x => match ms_holder (snd x) with
+                                           | Some _ => mem_n (fst x) ids || (g_clk g <? ms_dl (snd x) + dl_slack)%Z
+                                           | None => true
+                                           end) (l_msgs cl)) g in
         upd_cl g t c (fun cl => cl <| l_msgs ::= map (fun x => if mem_n (fst x) ids then (fst x, (snd x) <| ms_holder := None |>) else x) |>)
     | None => g
     end
@@ -663,7 +690,7 @@ Definition mon_final (g : ledger) : ledger :=
                              match l_owed cl with [] => true | _ => false end) (g_ch g)) g.
 
 Definition flags_of (c : case) : list N :=
-  g_flags (mon_final (mon_run (mkL [] [] [] None false [] (hidden c) None [] 0 []) None false (events c))).
+  g_flags (mon_final (mon_run (mkL [] [] [] None false [] (hidden c) None [] 0 [] 0%Z (max_msg_timeout (cfg c))) None false (events c))).
 
 (* which ledger checks belong to which property: C05 also demands redelivery with
    continuing attempts and no reappearance of finished messages (checks 1 and 2 across
@@ -677,4 +704,4 @@ Definition judge_for (p : N) (c : case) : N := verdict (agree c) (monitor p c).
 
 Definition diag (c : case) : N * list N := (replay_diag_h (hidden c) (cfg c) init None (events c) 0, flags_of c).
 Definition mon_where (c : case) : list (N * N) :=
-  g_where (mon_final (mon_run (mkL [] [] [] None false [] (hidden c) None [] 0 []) None false (events c))).
+  g_where (mon_final (mon_run (mkL [] [] [] None false [] (hidden c) None [] 0 [] 0%Z (max_msg_timeout (cfg c))) None false (events c))).
